@@ -48,9 +48,15 @@ structure Trace where
   at_ : String := "after"
   outOfFuel : Bool := false
 
-/-- one atomic action of the clock thread, observed -/
+/-- the action of a schedule (`Sched.Act`) an operation of the socket thread is -/
+def actOf : Op → Option Act
+  | .ctrl i sp d => some (.ctrl i sp d)
+  | .data i d => some (.data i d)
+  | _ => none
+
+/-- one atomic action of the clock thread (`Sched.act s .clk`, the step function of `Sched.exec`), observed -/
 def clkTraced (tag : String) (s : State) (t : Trace) : State × Trace :=
-  let s' := clockStep s
+  let s' := act s .clk
   let fwd := match s.pc with
     | .loop fn j (m :: _) _ _ => [s!"fwd:{j}:{showOptInt m.fn}:{fn}"]
     | _ => []
@@ -64,13 +70,17 @@ def clkTraced (tag : String) (s : State) (t : Trace) : State × Trace :=
   (s', { t with dgrams := t.dgrams ++ s'.out.drop s.out.length, stale := t.stale + (s'.stale - s.stale),
                 fwd := t.fwd ++ fwd, excs := t.excs ++ exc, afterLock := afterLock })
 
-/-- one complete operation of the socket thread, observed -/
+/-- one complete operation of the socket thread (`Sched.act s (.ctrl ..)` / `(.data ..)`; a clock jump `J` of the
+set-up is `World.jump`), observed -/
 def sockTraced (tag : String) (s : State) (op : Op) (t : Trace) : State × Trace :=
   let r := step s.w op
   let exc := match r.exc with
     | some e => [tag ++ e.pyName]
     | none => []
-  (sockStep s op, { t with dgrams := t.dgrams ++ r.out, excs := t.excs ++ exc })
+  let s' := match actOf op with
+    | some a => act s a
+    | none => sockStep s op
+  (s', { t with dgrams := t.dgrams ++ s'.sout.drop s.sout.length, excs := t.excs ++ exc })
 
 def finished : Pc → Bool
   | .idle => true
